@@ -196,6 +196,9 @@ FRAMES = [Frame("origin, unit 1", (0, 0), 1.0, 1e-9),
           Frame("centre (-300000, 700000), unit 1/2", (-300000, 700000), 0.5, 1e-6)]
 
 
+XIS = [1.0, 0.5, 2.0]     # coherence lengths of the devices' layers (dyadic)
+
+
 def frame_of(variant, about_origin=False):
     """about_origin: the chain uses the primitives' `angle` argument, which turns about the real (0, 0): only the
     frames whose base is (0, 0) draw the grid where the model has it."""
@@ -217,9 +220,10 @@ def abstract_obj(p, H, C, fr=FRAMES[0]):
 class Heap:
     """Registry of live real objects; index + 1 = object id of the specification."""
 
-    def __init__(self, tdgl, H, fr=FRAMES[0]):
+    def __init__(self, tdgl, H, fr=FRAMES[0], xi=1.0):
         self.tdgl = tdgl
         self.fr = fr
+        self.xi = xi
         self.H = H
         self.C = centres(H)
         self.objs = []
@@ -371,7 +375,9 @@ def apply_op(tdgl, heap, o, v):
         arr += np.array(o["par"], dtype=float) * u
         return P, "points array written in place"
     if op == "mkdev":
-        layer = tdgl.Layer(coherence_length=1.0, london_lambda=2.0, thickness=0.1)
+        # the layer's coherence length is a free parameter of device construction (polygons, probe points and the
+        # arguments of Device.translate / rotate / scale are all in length units, whatever xi is)
+        layer = tdgl.Layer(coherence_length=heap.xi, london_lambda=2.0 * heap.xi, thickness=0.1)
         pr = o.get("probes") or []
         if pr:
             pp = fr.pts(np.array(pr, dtype=float) / 2)
@@ -408,7 +414,8 @@ def replay_chain(tdgl, chain, H, variant):
     """Run one exported chain on real objects; returns the trace and a python-side diff against
     the exported expectation (diagnostics only; TLC decides)."""
     fr = frame_of(variant, about_origin=any(st["o"]["op"] == "new" and st["o"]["q"] for st in chain))
-    heap = Heap(tdgl, H, fr)
+    xi = XIS[(variant // 13) % len(XIS)]
+    heap = Heap(tdgl, H, fr, xi)
     ev, forms, diffs = [], [], []
     for n, st in enumerate(chain):
         o = st["o"]
@@ -438,7 +445,7 @@ def replay_chain(tdgl, chain, H, variant):
                 diffs.append({"step": n + 1, "form": form, "expected": {"out": want[0], "res": want[1], "objs": want[2], "devs": want[3]},
                               "observed": {"out": got[0], "res": got[1], "objs": got[2], "devs": got[3]}})
     return {"kind": "chain", "H": H, "ev": ev, "key": chain_key(chain), "variant": variant, "forms": forms, "pydiff": diffs[:1],
-            "frame": fr.name,
+            "frame": fr.name, "xi": xi,
             "ops": [st["o"] for st in chain]}
 
 
@@ -458,7 +465,7 @@ def replay_chains_to_file(tdgl, args, tmp):
     for ops, v in zip(args["chains"], args["variants"]):
         t = replay_chain(tdgl, [{"o": o} for o in ops], args["H"], v)
         traces.append(strip_trace(t))
-        meta.append({"key": t["key"], "forms": t["forms"], "n": len(t["ev"]), "frame": t["frame"],
+        meta.append({"key": t["key"], "forms": t["forms"], "n": len(t["ev"]), "frame": t["frame"], "xi": t["xi"],
                      "ops": [[e["op"], e["kind"], e["inplace"], e["out"]] for e in t["ev"]]})
     with open(args["out"], "w") as f:
         json.dump(traces, f)
@@ -734,7 +741,8 @@ def relation_trace(tdgl, args, tmp):
         pts = circle(0.12 * min(w, h) * rnd.uniform(0.5, 1.5), points=rnd.choice([6, 12, 20]), center=(cx, cy))
         holes.append(tdgl.Polygon(f"h{k}", points=pts[::-1] if k % 2 else pts))
     film = P.copy().set_name("film")
-    layer = tdgl.Layer(coherence_length=1.0, london_lambda=2.0, thickness=0.1)
+    xi = rnd.choice(XIS + [0.3, 7.5])
+    layer = tdgl.Layer(coherence_length=xi, london_lambda=2.0 * xi, thickness=0.1)
     dev = tdgl.Device("d", layer=layer, film=film, holes=holes)
     pts = _probes(rnd, [film] + holes, 48)
     what = f"Device(film, {len(holes)} holes)"
@@ -748,10 +756,22 @@ def relation_trace(tdgl, args, tmp):
                "what": what + ".translate"})
     ev.append({"rel": "ident", "same": any(x is y for x in D2.polygons for y in dev.polygons), "expect": False,
                "clause": "CopiesDoNotAlias", "what": "Device.translate(inplace=False) shares no polygon"})
+    # vertex-wise against the harness' own numbers: every polygon of the device moves by exactly (dx, dy) length units,
+    # whatever the coherence length; in place and not
+    D3 = dev.copy()
+    r3 = D3.translate(dx, dy, inplace=True)
+    for Dt, w3 in ((D2, f"Device(xi={xi}).translate({dx}, {dy})"), (D3, f"Device(xi={xi}).translate({dx}, {dy}, inplace=True)")):
+        dq = []
+        for new, old in zip(Dt.polygons, dev.polygons):
+            d = np.asarray(new.points) - (np.asarray(old.points) + np.array([dx, dy])) if np.shape(new.points) == np.shape(old.points) else np.array([1e3])
+            dq += [int(max(-10 ** 9, min(10 ** 9, round(v * 10 ** 6)))) for v in (float(np.abs(d).max()),)]
+        ev.append({"rel": "zero", "x": dq, "tol": 5, "clause": "PointsMapWithShapes (Device.translate moves by (dx, dy) in length units)", "what": w3})
+    ev.append({"rel": "ident", "same": r3 is D3, "expect": True, "clause": "InplaceReturnsSelf", "what": "Device.translate(inplace=True)"})
     nprim = primitive_relations(tdgl, rnd, ev)
     # probe points of a device travel with its film and holes (any angle, any origin, any place)
     inside = pts[dev.contains_points(pts)]
     nprobe = 0
+    rel_xi = xi
     if len(inside) >= 2:
         pp = inside[:3]
         devp = tdgl.Device("dp", layer=layer, film=film.copy(), holes=[hh.copy() for hh in holes], probe_points=pp)
@@ -780,4 +800,4 @@ def relation_trace(tdgl, args, tmp):
         ev.append({"rel": "same", "x": _hash_ints(pp), "y": _hash_ints(devp.probe_points), "clause": "NonInplaceNeverMutates (probe points)",
                    "what": "non-in-place device transforms"})
     return {"kind": "rel", "ev": ev, "key": f"rel seed={args['seed']} place={place}: " + " ; ".join(steps), "nset": nset, "seed": args["seed"],
-            "transforms": args.get("transforms", 3), "nprobe": nprobe, "place": list(place), "nprim": dict(nprim)}
+            "transforms": args.get("transforms", 3), "nprobe": nprobe, "place": list(place), "nprim": dict(nprim), "xi": rel_xi}
